@@ -140,14 +140,17 @@ theorem initiate_lost_aborts (E : Env) (s : Sys) (idx sub : Nat) (size : Option 
       = initReq idx sub size crcReq from rfl, h1]
   · rw [h3, hr, sent_sendReq]; rfl
 
-/-- **(a) lost end response**: `close()` raises SdoCommunicationError after the time-out abort -/
+/-- **(a) lost end response**: `close()` raises SdoCommunicationError after the time-out abort (`hk`: the
+    last segment is out or nothing is kept back in `_pending`, so that `close()` is the end request alone) -/
 theorem end_lost_aborts (E : Env) (s : Sys) (ht : E.srvTimeout = false)
+    (hk : s.cl.done = true ∨ s.cl.pend = [])
     (hq : (sendReq E { s with queue := [] } (endReq s.cl)).queue = []) :
     ∃ s', close E s = (s', .err) ∧ s'.raised = some .comm ∧ sent s' = timeoutAbort :: endReq s.cl :: sent s := by
   have hr := read_timeout_of_empty E _ hq ht
   obtain ⟨s', h1, h2, h3⟩ := request_timeout_aborts E s (endReq s.cl) (by rw [hr])
   refine ⟨s', ?_, h2, ?_⟩
-  · simp only [close]
+  · rw [C12.close_nokeep E s hk]
+    simp only [closeEnd]
     rw [show ((REQUEST_BLOCK_DOWNLOAD ||| END_BLOCK_TRANSFER ||| ((7 - s.cl.lastBytesSent) <<< 2)) ::
       (if s.cl.crcSupported = true then leBytes 2 s.cl.crc else [0, 0]) ++ [0, 0, 0, 0, 0]) = endReq s.cl from rfl, h1]
   · rw [h3, hr, sent_sendReq]; rfl
@@ -173,13 +176,15 @@ theorem initiate_abort_raises (E : Env) (s : Sys) (idx sub : Nat) (size : Option
     ||| (if size.isSome = true then BLOCK_SIZE_SPECIFIED else 0), idx % 256, idx / 256, sub] ++ leBytes 4 (size.getD 0))
     = initReq idx sub size crcReq from rfl, h1]
 
-/-- **(b) abort frame instead of the end response** -/
+/-- **(b) abort frame instead of the end response** (`hk` as in `end_lost_aborts`) -/
 theorem end_abort_raises (E : Env) (s : Sys) (a b d code : Nat) (rest : List Bytes) (hc : code < 2 ^ 32)
+    (hk : s.cl.done = true ∨ s.cl.pend = [])
     (hq : (sendReq E { s with queue := [] } (endReq s.cl)).queue = abortFrame a b d code :: rest) :
     ∃ s', close E s = (s', .err) ∧ s'.raised = some (.aborted code) := by
   obtain ⟨s', h1, h2, -⟩ := request_abort_raises E s (endReq s.cl) a b d code rest hc hq
   refine ⟨s', ?_, h2⟩
-  simp only [close]
+  rw [C12.close_nokeep E s hk]
+  simp only [closeEnd]
   rw [show ((REQUEST_BLOCK_DOWNLOAD ||| END_BLOCK_TRANSFER ||| ((7 - s.cl.lastBytesSent) <<< 2)) ::
     (if s.cl.crcSupported = true then leBytes 2 s.cl.crc else [0, 0]) ++ [0, 0, 0, 0, 0]) = endReq s.cl from rfl, h1]
 
@@ -264,7 +269,7 @@ theorem next_block_download_clean (E : Env) (hE : Plain E) (hnl : ∀ n, E.lost 
   have hb := hE.blk s0.srv.k
   have hinv : Inv payload s ((chunks payload).map fun b => Item.write b false) := by
     refine ⟨e1, by rw [e2], by rw [e2, e3], by rw [e2]; rfl, by rw [e2]; simp; omega, by rw [e2]; simp; omega,
-      by rw [e4, e2]; simp, ?_, ?_, by rw [e2], e6, by rw [e2]; simp, hck.2, e8, ?_⟩
+      by rw [e4, e2]; simp, ?_, ?_, by rw [e2], Or.inl e6, by rw [e2]; simp, hck.2, e8, ?_, by rw [e2]⟩
     · rw [e5, e2]; simp [chunks, hck.1]
     · rw [e2]; simp [chunks, hck.1]
     · simp only [chunks, hck.1]; intro h0; rw [h0] at h1; simp at h1
